@@ -1021,26 +1021,29 @@ def bundle_rules(prop):
         return []
     mods = {f[:-3] for f in files}
 
-    def rule(ctx):
-        import importlib
+    def make(part):
+        def rule(ctx):
+            import importlib
 
-        c03 = importlib.import_module("sa.rules.c03")
-        for part in BUNDLE_PARTS:
+            c03 = importlib.import_module("sa.rules.c03")
             try:
                 got = list(getattr(c03, part)(ctx))
             except AnalysisError as e:
                 # a routing rule that cannot read some *other* module's evaluate() says nothing about this property
                 if part in ("rule_filterimpl", "rule_decorated") or any((m_ + ".") in (e.why or "") for m_ in mods):
                     raise
-                continue
+                return
             for o in got:
                 m = o.construct.split(":")[0].split(".")[0]
                 if m in mods or part in ("rule_filterimpl", "rule_decorated"):
                     o.rule = prop + ".BUNDLE"
                     yield o
 
-    rule.__doc__ = "shared with C03 (routing rules), restricted to %s" % ", ".join(files)
-    return [(prop + ".BUNDLE", 5, rule)]
+        rule.__doc__ = "shared with C03.%s (routing rules), restricted to %s" % (part, ", ".join(files))
+        return rule
+
+    # one entry per routing rule: a rule that cannot read one construct does not silence the others
+    return [(prop + ".BUNDLE", 0, make(part)) for part in BUNDLE_PARTS]
 
 
 # ------------------------------------------------------------------ HELPERDEFAULTS
